@@ -354,7 +354,11 @@ example : (2 : Nat) ≤ 3 ∧ (1 : Rat) ≠ 4 ∧ exT 0 = 1 ∧ lgT (4 / 1) = lg
 /-- an unsorted list is rejected with the diagnostic. -/
 theorem locateClosest_unsorted (l : List Rat) (t : Rat) (h : isSorted l = false) :
     locateClosest l t = .error .diag := by
-  unfold locateClosest; simp [h]
+  unfold locateClosest; split <;> simp [h]
+
+/-- an empty list has no closest location: diagnostic (fix 48e4c84; before, `size() - 1` wrapped
+    around and 4294967295 was returned) -/
+theorem locateClosest_empty (t : Rat) : locateClosest [] t = .error .diag := rfl
 
 /-- every non-empty sorted (non-strictly) list, every target: the returned index is valid and no
     element is strictly nearer to the target (covers below / above / ties / duplicates). -/
@@ -364,6 +368,7 @@ theorem locateClosest_nearest (l : List Rat) (t : Rat) (hne : l ≠ []) (hs : is
   have hlen : 0 < l.length := List.length_pos_iff.mpr hne
   have hub := upperBound_le_length l t
   unfold locateClosest
+  rw [if_neg (by omega)]
   simp only [hs, Bool.not_true, Bool.false_eq_true, if_false]
   by_cases h1 : upperBound l t = l.length
   · -- target at or above the last element
@@ -439,6 +444,7 @@ theorem locateClosest_interior (l : List Rat) (t : Rat) (hs : isSorted l = true)
   have hb : l[upperBound l t - 1]'(by omega) ≤ t := upperBound_below l t _ (by omega) (by omega)
   have ha : t < l[upperBound l t] := upperBound_above l t h1
   unfold locateClosest
+  rw [if_neg (by omega)]
   simp only [hs, Bool.not_true, Bool.false_eq_true, if_false]
   rw [if_neg (by omega), if_neg (by omega)]
   have e1 : l.getD (upperBound l t - 1) 0 = l[upperBound l t - 1]'(by omega) := by
@@ -524,7 +530,7 @@ theorem transposeLists_spec [Inhabited α] (ls : List (List α)) (m : Nat) (hne 
 theorem transposeLists_ragged [Inhabited α] (ls : List (List α))
     (h : ∃ l ∈ ls, l.length ≠ (ls.headD []).length) : transposeLists ls = .error .diag := by
   cases ls with
-  | nil => rfl
+  | nil => obtain ⟨l, hl, _⟩ := h; simp at hl
   | cons l0 tl =>
     obtain ⟨l, hl, hne⟩ := h
     unfold transposeLists
@@ -535,9 +541,9 @@ theorem transposeLists_ragged [Inhabited α] (ls : List (List α))
     simp only [this]
     rfl
 
-/-- an empty outer list: the C++ reads `lists[0]` out of bounds; the model reports a diagnostic
-    and the driver answers `undef` (not compared). -/
-theorem transposeLists_empty [Inhabited α] : transposeLists ([] : List (List α)) = .error .diag := rfl
+/-- the transpose of zero lists is the empty list (fix 9697404; before, `lists[0]` of an empty vector
+    was read) -/
+theorem transposeLists_empty [Inhabited α] : transposeLists ([] : List (List α)) = .ok [] := rfl
 
 example : transposeLists [[1, 2, 3], [4, 5, 6]] = .ok [[1, 4], [2, 5], [3, 6]] := by decide
 example : [[1, 2, 3], [4, 5, 6]] ≠ [] ∧ ∀ l ∈ [[1, 2, 3], [4, 5, 6]], l.length = 3 := by decide
